@@ -3,6 +3,7 @@ import PestModel.Model.Lower
 import PestModel.Model.Ref
 import PestModel.Model.RefTrace
 import PestModel.Model.PStateDriver
+import PestModel.Model.Unicode
 /-! Driver modes for the grammar layer:
 `O <extras> <pass> <rules>`                      → rules after the pass
 `V <cfg> <vm|gen> <orules> <rule> <input-hex>`  → outcome of the lowered back-end on the model state
@@ -131,8 +132,8 @@ def showRules (rs : List Rule) : String :=
 def showORules (rs : List ORule) : String :=
   "(" ++ " ".intercalate (rs.map fun r => s!"(rule {r.name} {showTy r.ty} {showOExpr r.expr})") ++ ")"
 
-/-- no Unicode tables wired in yet (C16 regenerates them): names resolve to `none`. -/
-def noUni : String → Option CharSet := fun _ => none
+/-- Unicode property built-ins resolve through the regenerated tables (C16). -/
+def noUni : String → Option CharSet := fun n => PestModel.Unicode.tableOf n
 
 def runPass (extras : Bool) (pass : String) (rules : List Rule) : String :=
   let each (f : Rule → Option Rule) : String :=
